@@ -2643,7 +2643,13 @@ impl Translator {
                 false
             }
         };
-        match func_name {
+        // only the prelude's own functions are recognised by name: a user module called `array`
+        // or `channel` gives its functions the same qualified names
+        let builtin_name = match self.statics.file_db.get(func_def.name.loc.file_id) {
+            Ok(file) if file.package_name.as_os_str() == "prelude" => func_name,
+            _ => "",
+        };
+        match builtin_name {
             // inline basic/fundamental operations instead of performing function call
             "array.push" => {
                 // arrays of void use dummy values
